@@ -151,8 +151,13 @@ def run(ctx):
         r = roles(ctx, v)
         for f in (r.send, r.send_events):
             flow = status_flow(f)
-            for w in attr_writes(f):
-                if w.attr == "_event_queue":
+            sites = [w.node for w in attr_writes(f) if w.attr == "_event_queue"]
+            for s_ in res.callsites(f, v):
+                if s_.recv == "self" and any(any(w2.attr == "_event_queue" and w2.base == "self" for w2 in attr_writes(t)) for t in s_.targets
+                                             if t.qualname != r.drain.qualname):
+                    sites.append(s_.call)
+            for site in sites:
+                    w = type("W", (), {"node": site})()
                     ids = cfg_node_of(f, w.node)
                     pre = frozenset().union(*[flow.get(i, frozenset()) for i in ids])
                     c.ob("R4", not (pre & TERMINAL), f, "enqueue-only-when-live", f"events are queued only in status {sorted(pre)}" if not (pre & TERMINAL) else
